@@ -7,7 +7,7 @@ import core, layout, store_common as sc
 ID = 'C16'
 GENMODS = ['gen_c16', 'gen_c10', 'gen_c18', 'gen_store']
 TARGET = 'props/C16.vo'
-PROOF_FILES = ['proof/C16.v', 'proof/IniProofs.v', 'proof/IniFile.v', 'props/C16.v']
+PROOF_FILES = ['proof/C16.v', 'proof/IniProofs.v', 'proof/IniFile.v', 'proof/C16Text.v', 'props/C16.v']
 AXIOMS = []
 TRUSTED = [
     'Coq 8.16.1 kernel; no axioms; vm_compute evaluates validate for the correspondence',
@@ -114,6 +114,10 @@ def r_model(m):
 
 # ------------------------------------------------------------------------------------------- the model term
 def coq_model(m, ar):
+    return model_terms(m, ar)[0]
+
+def model_terms(m, ar):
+    """(the Coq term deciding the model, closures: rank of a number, label term of an identifier, modifier term, term of a definition)"""
     vals = set()
     def collect(d):
         for (mk, s, p) in d['parts']:
@@ -143,8 +147,58 @@ def coq_model(m, ar):
     dk = lambda e: {'plain': 'KPlain', 'arrow': 'KArrow', 'bad': 'KBad'}[e['style']]
     tg = 'None' if m['target'] is None else '(Some %s)' % {'pair': 'TPair', 'eam': 'TEam', 'fs': 'TFs', 'adp': 'TAdp', 'unknown': 'TUnknown'}[m['tkind'] if 'tkind' in m else m['kind']]
     tabs = '[%s]' % '; '.join({'ok': 'TabOk', 'few': 'TabBadData', 'order': 'TabBadData', 'interp': 'TabBadInterp'}[tb['state']] for tb in m.get('tables', {}).values())
-    return ('(enc (validate {| m_target := %s; m_pair := %s; m_embed := %s; m_density := %s; m_dipole := %s; m_quadrupole := %s; m_tables := %s |}))'
-            % (tg, sec('pair', b), sec('embed', b), sec('density', dk), sec('dipole', b), sec('quadrupole', b), tabs))
+    modt = lambda n: {'sum': 'MSum', 'product': 'MProduct', 'pow': 'MPow', 'trans': 'MTrans', 'spline': 'MSpline'}.get(n, 'MUnknownMod')
+    return (('(enc (validate {| m_target := %s; m_pair := %s; m_embed := %s; m_density := %s; m_dipole := %s; m_quadrupole := %s; m_tables := %s |}))'
+             % (tg, sec('pair', b), sec('embed', b), sec('density', dk), sec('dipole', b), sec('quadrupole', b), tabs)), rank, lab, modt, defn)
+
+# ------------------------------------------------------------------------------------------- definitions as text (proof/C16Text.v)
+PRE_TEXT = '''From Coq Require Import List ZArith.
+From V Require Import lib.Common model.DefnSyntax model.Lexer model.Validate proof.C16Text.
+Import ListNotations.
+Local Open Scope Z_scope.
+Fixpoint assoc {B} (tbl : list (list Z * B)) (s : list Z) (dflt : B) : B := match tbl with [] => dflt | (k, v) :: r => if list_eqb k s then v else assoc r s dflt end.
+Fixpoint index_of (tbl : list (list Z)) (s : list Z) (i : nat) : nat := match tbl with [] => i | x :: r => if list_eqb x s then i else index_of r s (S i) end.
+Definition enc_label (l : label) : list Z :=
+  match l with LForm c (Fixed n) => [1; if c then 1 else 0; Z.of_nat n] | LForm c VarArgs => [1; if c then 1 else 0; -1] | LExpSpline => [2] | LBuck4Spline => [3] | LUnknown => [4] end.
+Definition enc_mod (m : modname) : Z := match m with MSum => 1 | MProduct => 2 | MPow => 3 | MTrans => 4 | MSpline => 5 | MUnknownMod => 6 end.
+Fixpoint enc_defn (d : defn) : list Z :=
+  match d with Defn parts => [10; Z.of_nat (length parts)] ++ (fix ep (l : list (Z * part)) : list Z := match l with [] => [] | (s, p) :: r => s :: enc_part p ++ ep r end) parts end
+with enc_part (p : part) : list Z :=
+  match p with
+  | PInst i => [20] ++ enc_label (i_label i) ++ [Z.of_nat (length (i_params i))] ++ i_params i
+  | PMod m args => [30; enc_mod m; Z.of_nat (length args)] ++ (fix ea (l : list defn) : list Z := match l with [] => [] | d :: r => enc_defn d ++ ea r end) args
+  end.
+Definition read_resolved (ids : list (list Z)) (labs : list label) (mods : list modname) (nums : list (list Z * Z)) (z0 : Z) (text : list Z) : list Z :=
+  match read_value (fun s => index_of ids s 0%nat) (fun s => assoc nums s (-1)) text with
+  | Some d => 1 :: enc_defn (resolve (fun n => nth n labs LUnknown) (fun n => nth n mods MUnknownMod) z0 d)
+  | None => [0]
+  end.
+'''
+def defn_text_goals(m, ar):
+    """for every definition of the model: (text, Coq expr reading the text and resolving it, Coq expr of the harness' own term)"""
+    _, rank, lab, modt, defn = model_terms(m, ar)
+    out = []
+    zs = lambda t: '[%s]' % '; '.join('%d' % ord(c) for c in t)
+    for key in ('pair', 'embed', 'density', 'dipole', 'quadrupole'):
+        for e in m.get(key) or []:
+            d = e['defn']; text = r_defn(d)
+            if not all(ord(c) < 128 for c in text): continue
+            ids, nums = [], {}
+            def walk(d):
+                for (mk, s, p) in d['parts']:
+                    nums[num(s)] = rank[float(s)]
+                    if p['t'] == 'inst':
+                        if p['label'] not in ids: ids.append(p['label'])
+                        for v in p['params']: nums[num(v)] = rank[float(v)]
+                    else:
+                        if p['name'] not in ids: ids.append(p['name'])
+                        for a in p['args']: walk(a)
+            walk(d)
+            if 0.0 not in rank: continue
+            expr = '(read_resolved [%s] [%s] [%s] [%s] %d %s)' % ('; '.join(zs(i) for i in ids), '; '.join(lab(i) for i in ids), '; '.join(modt(i) for i in ids),
+                                                                '; '.join('(%s, %d)' % (zs(k), v) for k, v in nums.items()), rank[0.0], zs(text))
+            out.append((text, expr, '(1 :: enc_defn %s)' % defn(d)))
+    return out
 
 # ------------------------------------------------------------------------------------------- the catalogue (model level)
 def nodes(m):
@@ -354,6 +408,16 @@ def correspond(ctx):
     for c in cases: dist['targets'][str(c['model']['target'])] = dist['targets'].get(str(c['model']['target']), 0) + 1
     import ini_common as ic
     idis, istats, _ = ic.check_ini(ctx, 300 if ctx['thorough'] else 80, 'C16i'); dis += idis; dist.update(istats)
+    # definitions as text (proof/C16Text.v): the text the harness prints for a definition, read by the character-level model and resolved,
+    # is the tree the harness handed to validate
+    goals = []
+    for c in cases[:(300 if ctx['thorough'] else 60)]:
+        for g3 in defn_text_goals(c['model'], ar): goals.append((c, g3))
+    tres = sc.eval_results('C16t', PRE_TEXT, [x for (_, (t, e1, e2)) in goals for x in (e1, e2)], chunk=60)
+    for k, (c, (t, e1, e2)) in enumerate(goals):
+        if tres[2 * k] != tres[2 * k + 1]:
+            dis.append({'case': {'kind': 'store_text', 'text': t}, 'what': 'the definition text %r read and resolved is %r, the tree given to validate is %r' % (t, tres[2 * k][:40], tres[2 * k + 1][:40])})
+    dist['definition_texts_read'] = len(goals)
     return {'evaluations': len(cases) + istats['ini_files'], 'cases': cases, 'nontrivial': core.distinct_count([c for c in cases if c['expect'] == 'CfgErr']) + core.distinct_count([c for c in cases if c['expect'] == 'Ok']),
             'rule': 'well-formed models over all eleven targets (pair / EAM / Finnis-Sinclair / ADP; 1..3 species; custom and table forms; definitions to depth 2 with ranges, sum/product/pow/trans/spline, modifiers as spline ends) and one catalogue '
                     'malformation of each (%d operators: targets, sections, keys, key styles, table data, labels, parameter counts, modifier names and arities, every spline rule): validate vs Configuration().read, a sample through the potable CLI '
